@@ -223,9 +223,13 @@ func (s *Service) handleStatusRequest(msg service.DIDCommMsg, myDID, theirDID st
 		LastDeliveredTime: outbox.LastDeliveredTime,
 		LastRemovedTime:   outbox.LastRemovedTime,
 		TotalSize:         outbox.TotalSize,
-		Thread: &decorator.Thread{
+	}
+
+	// ~thread is optional in the request: without this check a request that omits it crashes the agent.
+	if request.Thread != nil {
+		resp.Thread = &decorator.Thread{
 			PID: request.Thread.ID,
-		},
+		}
 	}
 
 	msgBytes, err := json.Marshal(resp)
